@@ -82,7 +82,7 @@ def matrix(ctx, rep):
     rep.sample({"rule": "C16.matrix", "sets": [",".join(s) or "(none)" for s in sets], "seconds": times})
 
 
-STRIP = {"sp", "col", "eline", "id", "hid", "mac", "ty", "aty"}  # positions, ids and (back-end specific) type spellings
+STRIP = {"sp", "col", "eline", "id", "hid", "mac", "ty", "aty", "targs", "generics"}  # positions, ids and (back-end specific) type spellings
 
 
 def canon(n):
